@@ -120,7 +120,7 @@ func expectedContent(name string, t uint16, v int) string {
 
 // ---- events ----
 
-var eventNames = []string{"resolve(n1)", "resolve(n2)", "advance(1s)", "advance(2s)", "advance(5s)", "advance(300s)", "zone-next-version", "toggle-servfail", "toggle-http400", "toggle-rcode9-notauth"}
+var eventNames = []string{"resolve(n1)", "resolve(n2)", "advance(1s)", "toggle-https-nxdomain", "advance(5s)", "advance(300s)", "zone-next-version", "toggle-servfail", "toggle-http400", "toggle-rcode9-notauth", "set-cache-size(64)"}
 
 type cacheEntry struct {
 	version int
@@ -136,7 +136,7 @@ type histResult struct {
 
 // runHistory replays one history on a fresh Resolver, stepping the model alongside.
 func runHistory(hist []int, srv *dohmem.Server, clock *time.Time) (out histResult) {
-	version, servfail, http400, notauth := 0, false, false, false
+	version, servfail, http400, notauth, httpsNX := 0, false, false, false, false
 	srv.Reset()
 	srv.Zone = func(name string, t uint16) dohmem.Answer {
 		if http400 {
@@ -148,6 +148,10 @@ func runHistory(hist []int, srv *dohmem.Server, clock *time.Time) (out histResul
 		}
 		if notauth {
 			return dohmem.Answer{RCode: 9} // a failure code outside the table of named errors
+		}
+		if httpsNX && t == 65 {
+			// the HTTPS RRset has been withdrawn (NXDOMAIN for that query only): absence, not a failure
+			return dohmem.Answer{RCode: 3}
 		}
 		return buildAnswer(name, t, version)
 	}
@@ -163,7 +167,9 @@ func runHistory(hist []int, srv *dohmem.Server, clock *time.Time) (out histResul
 		case 2:
 			*clock = clock.Add(time.Second)
 		case 3:
-			*clock = clock.Add(2 * time.Second)
+			httpsNX = !httpsNX
+		case 10:
+			res.SetCacheSize(64) // re-sizing a live resolver's cache keeps what is cached
 		case 4:
 			*clock = clock.Add(5 * time.Second)
 		case 5:
@@ -215,6 +221,15 @@ func runHistory(hist []int, srv *dohmem.Server, clock *time.Time) (out histResul
 						if failing {
 							delete(model, key)
 							aborted = true
+							continue
+						}
+						if httpsNX && t == 65 {
+							// NXDOMAIN on the HTTPS lookup: treated as absence; nothing is cached and NOTHING that was cached before
+							// (now expired) may be served in its place
+							delete(model, key)
+							if c := contentOf(got, key); err == nil && c != "" {
+								fail("stale-https-after-nxdomain:"+key, fmt.Sprintf("step %d (%s): the HTTPS lookup of this call was answered NXDOMAIN, yet the result carries HTTPS data %q (an expired entry was served)", step, eventNames[e], c))
+							}
 							continue
 						}
 						spec := versions[version][key]
